@@ -107,7 +107,8 @@ def r1_bound(ctx):
 def r2_closure(ctx):
     for cfg in ('dev', 'rel'):
         name = "<regular_expressions::DerivativeIterator<'a> as std::iter::Iterator>::next"
-        log = calllog.run(ctx, cfg, name)
+        # push_all(iter) is `for x in iter { push(x) }`: its loop is the successor loop when the function is written that way
+        log = calllog.run(ctx, cfg, name, inline=('BfsQueue::<T>::push_all',))
         ip, fn = log.ip, log.fn
         it0 = A(0)
         inner = log.iterations
@@ -141,15 +142,14 @@ def r2_closure(ctx):
             if v is None or len(pops) != 1:
                 ctx.unanalysable('C19.R2', 'C19.R2/DerivativeIterator::next/leaf-shape', fn.path, fn.site(), None, cfg)
                 continue
-            d = o.state.variants.get(calllog.call_term(pops[0]))
+            d = known_variant(ip, o.state, calllog.call_term(pops[0]))
             if v[0] == 'Some':
                 r = calllog.payload(calllog.call_term(pops[0]))
                 ok = d == 1 and ip.to_term(o.state, v[1][0]) == r
                 # the class loop ran over all class ids of the popped term: on this path the class-id iterator of r was
                 # created and its last next() answered None (no guard or early exit may skip the successors of a term)
                 cids = [c for c in o.state.calls if c[0] == RE + 'RE::class_ids' and c[1] == (r,)]
-                nexts = [c for c in o.state.calls if c[0].endswith('as std::iter::Iterator>::next') and cids and T.show(calllog.call_term(cids[0])) in T.show(c[1][0])]
-                ok = ok and len(cids) == 1 and bool(nexts) and o.state.variants.get(calllog.call_term(nexts[-1])) == 0
+                ok = ok and len(cids) == 1 and loop_exhausted(ip, o.state)
                 role = 'yields-the-popped-term-after-pushing-all-its-class-derivatives'
             else:
                 ok = d == 0
